@@ -299,6 +299,171 @@ theorem unpack_inv (d : Bytes) (a : Finished) (h : Finished.unpack d = .ok a) :
   · simp [parse, hs, throw, throwThe, MonadExceptOf.throw, bind, Except.bind] at hf
   · omega
 
+/-! ## the decoded object never reports more than the declared PDU -/
+
+theorem fsResponse_unpack_le {d : Bytes} {r : FileStoreResponseTlv} (h : FileStoreResponseTlv.unpack d = .ok r) :
+    r.packetLen ≤ d.length := by
+  rw [FileStoreResponseTlv.unpack_bind] at h
+  cases ht : CfdpTlv.unpack d with
+  | error e => rw [ht] at h; cases h
+  | ok t =>
+    rw [ht, bind_ok] at h
+    rw [FileStoreResponseTlv.fromTlv_len_exact h]
+    exact (CfdpTlv.unpack_spec d t ht).2.2.1
+
+theorem entityId_unpack_le {d : Bytes} {e : EntityIdTlv} (h : EntityIdTlv.unpack d = .ok e) :
+    e.packetLen ≤ d.length := by
+  rw [EntityIdTlv.unpack_bind] at h
+  cases ht : CfdpTlv.unpack d with
+  | error e => rw [ht] at h; cases h
+  | ok t =>
+    rw [ht, bind_ok, EntityIdTlv.fromTlv_eq] at h
+    split at h
+    · cases h; exact (CfdpTlv.unpack_spec d t ht).2.2.1
+    · cases h
+
+/-- octets of the kept fault location (0 for none) -/
+def entLen : Option EntityIdTlv → Nat
+  | some t => t.packetLen
+  | none => 0
+
+/-- **what the TLV loop returns fits into what it was given**: the filestore responses it returns
+    plus the one entity-ID TLV it keeps (the last) are not longer than the octets it consumed -/
+theorem unpackTlvs_len (might : Bool) : ∀ (n : Nat) (d : Bytes), d.length = n → d ≠ [] →
+    ∀ r, unpackTlvs might d = .ok r → responsesLen r.1 + entLen r.2 ≤ d.length := by
+  intro n
+  induction n using Nat.strongRecOn with
+  | _ n ih =>
+    intro d hn hne res h
+    have hpos : 0 < d.length := List.length_pos_iff.mpr hne
+    rw [unpackTlvs, idx_ok hpos, bind_ok] at h
+    split at h
+    · cases hr : FileStoreResponseTlv.unpack d with
+      | error e => rw [hr] at h; cases h
+      | ok r =>
+        rw [hr, bind_ok] at h
+        have hle := fsResponse_unpack_le hr
+        split at h
+        · cases h; simp only [responsesLen, entLen]; omega
+        · rename_i hlt
+          have hp := respLen_pos r
+          cases hrest : unpackTlvs might (d.drop r.packetLen) with
+          | error e => rw [hrest] at h; cases h
+          | ok rest =>
+            rw [hrest, bind_ok] at h
+            cases h
+            have := ih (d.drop r.packetLen).length (by simp only [List.length_drop]; omega) _ rfl (by
+              intro he
+              have := congrArg List.length he
+              simp only [List.length_drop, List.length_nil] at this
+              omega) rest hrest
+            simp only [List.length_drop] at this
+            simp only [responsesLen]; omega
+    · split at h
+      · split at h
+        · cases h
+        · cases he : EntityIdTlv.unpack d with
+          | error e => rw [he] at h; cases h
+          | ok e =>
+            rw [he] at h
+            simp only [bind_ok] at h
+            have hle := entityId_unpack_le he
+            split at h
+            · cases h; simp only [responsesLen, entLen]; omega
+            · rename_i hlt
+              have hp := entityLen_pos e
+              cases hrest : unpackTlvs might (d.drop e.packetLen) with
+              | error e => rw [hrest] at h; cases h
+              | ok rest =>
+                rw [hrest, bind_ok] at h
+                cases h
+                have := ih (d.drop e.packetLen).length (by simp only [List.length_drop]; omega) _ rfl (by
+                  intro he
+                  have := congrArg List.length he
+                  simp only [List.length_drop, List.length_nil] at this
+                  omega) rest hrest
+                simp only [List.length_drop] at this
+                cases h2 : rest.2 with
+                | none => simp only [h2, entLen] at this ⊢; omega
+                | some x => simp only [h2, entLen] at this ⊢; omega
+      · cases h
+
+theorem faultLen_le_entLen (cond : Int) (fl : Option EntityIdTlv) : faultLen cond fl ≤ entLen fl := by
+  cases fl with
+  | none => simp [faultLen, entLen]
+  | some t => simp only [faultLen, entLen]; split <;> omega
+
+/-- the parser's result reports at most header + what it was given (+ CRC trailer) -/
+theorem parse_len (fd : FileDirective) (p : Bytes) (a : Finished) (h : parse (fd, p) = .ok a) :
+    a.fd.header.headerLen = fd.header.headerLen ∧
+    a.fd.header.dataFieldLen + fd.header.headerLen ≤ p.length + (if fd.header.conf.crcFlag = 1 then 2 else 0) := by
+  unfold parse at h
+  simp only at h
+  split at h
+  · cases h
+  · rename_i hi
+    cases hb : idx p fd.headerLen with
+    | error e => rw [hb] at h; cases h
+    | ok b =>
+      rw [hb, bind_ok] at h
+      cases hc : enumOf condMembers (b / 16 % 16) with
+      | error e => rw [hc] at h; cases h
+      | ok cond =>
+        rw [hc, bind_ok, calcLen_eq'] at h
+        split at h
+        · cases h
+        · rw [bind_ok] at h
+          have hhl : fd.headerLen = fd.header.headerLen + 1 := rfl
+          split at h
+          · rename_i hgt
+            cases hr : unpackTlvs (mightHaveFaultLoc (cond : Int)) (p.drop (fd.headerLen + 1)) with
+            | error e => rw [hr] at h; cases h
+            | ok r =>
+              rw [hr, bind_ok, finish_eq] at h
+              split at h
+              · cases h
+              · rw [calcLen_eq'] at h
+                split at h
+                · cases h
+                · simp only [bind_ok, pure, Except.pure] at h
+                  cases h
+                  have hl := unpackTlvs_len _ _ (p.drop (fd.headerLen + 1)) rfl (by
+                    intro he
+                    have := congrArg List.length he
+                    simp only [List.length_drop, List.length_nil] at this
+                    omega) r hr
+                  have hf := faultLen_le_entLen (cond : Int) r.2
+                  simp only [List.length_drop] at hl
+                  refine ⟨rfl, ?_⟩
+                  simp only [finParamLen]
+                  split <;> omega
+          · simp only [pure, Except.pure] at h
+            cases h
+            refine ⟨rfl, ?_⟩
+            simp only [finParamLen, faultLen, responsesLen]
+            split <;> omega
+
+/-- **the decoded Finished PDU reports at most the declared PDU length** (its length is recomputed
+    from the TLVs it kept: the filestore responses and the last entity-ID TLV) -/
+theorem unpack_reported_le (d : Bytes) (a : Finished) (h : Finished.unpack d = .ok a) :
+    ∃ fd p, prelude d = .ok (fd, p) ∧ a.fd.packetLen ≤ fd.packetLen := by
+  obtain ⟨fd, p, hp, hf, _, _, _⟩ := unpack_inv d a h
+  obtain ⟨_, _, hlen, _, _, _⟩ := prelude_facts d fd p hp
+  obtain ⟨h1, h2⟩ := parse_len fd p a hf
+  refine ⟨fd, p, hp, ?_⟩
+  have e1 : a.fd.packetLen = a.fd.header.dataFieldLen + a.fd.header.headerLen := rfl
+  have e2 : fd.packetLen = fd.header.dataFieldLen + fd.header.headerLen := rfl
+  have hpe : fd.paramsEnd = fd.packetLen - (if fd.header.conf.crcFlag = 1 then 2 else 0) := by
+    unfold FileDirective.paramsEnd; split <;> simp
+  have hge : fd.header.headerLen + 1 < p.length := by
+    by_cases hs : fd.headerLen ≥ p.length
+    · simp [parse, hs, throw, throwThe, MonadExceptOf.throw, bind, Except.bind] at hf
+    · have : fd.headerLen = fd.header.headerLen + 1 := rfl
+      omega
+  rw [hlen] at h2 hge
+  rw [e1, h1]
+  split at hpe <;> split at h2 <;> omega
+
 /-- **only the declared PDU matters** -/
 theorem unpack_take (d : Bytes) (a : Finished) (h : Finished.unpack d = .ok a) :
     ∃ fd p, prelude d = .ok (fd, p) ∧ ∀ rest, Finished.unpack (d.take fd.packetLen ++ rest) = .ok a := by
